@@ -63,6 +63,7 @@ def programs():
     out += call_site_programs()
     out += destructor_scope_programs()
     out += constant_scope_programs()
+    out += override_parameter_programs()
     return out
 
 
@@ -174,6 +175,28 @@ def constant_scope_programs():
                                        Block([Decl(INT, c, I(1), final=True), Decl({"arr": "int", "size": Var(c)}, "y"), Echo(Var("y"))]), Echo(Call("header"))])
         for order in ((header, body, main), (body, header, main)):
             out.append(Program(list(order)))
+    return out
+
+
+def override_parameter_programs():
+    """an override may spell its parameters differently from the method it overrides: its body sees its own names, whichever way the
+    call reaches it (base-typed reference, derived-typed reference, unqualified call from a base method)"""
+    out = []
+    INT = P("int")
+    for names in (("w", "h", "k"), ("base", "height", "sides")):        # same spelling as the base declaration / a different one
+        a, b, c = names
+        shape = Class("Shape", "", [Field(INT, "sides", I(0)), Field(INT, "w", I(1000))],
+                      [Method("area", [Param(INT, "w"), Param(INT, "h")], INT, [Ret(Bin("*", Var("w"), Var("h")))], virtual=True),
+                       Method("grow", [Param(INT, "k")], INT, [Ret(Bin("+", Var("sides"), Var("k")))], virtual=True),
+                       Method("twiceArea", [Param(INT, "w"), Param(INT, "h")], INT, [Ret(Bin("*", I(2), MCall(This(), "area", Var("w"), Var("h"), bare=True)))])],
+                      [Ctor([], [])], [])
+        tri = Class("Tri", "Shape", [], [Method("area", [Param(INT, a), Param(INT, b)], INT, [Ret(Bin("-", Bin("*", Var(a), Var(b)), I(1)))], override=True),
+                                         Method("grow", [Param(INT, c)], INT, [Expr(FAsg(This(), "sides", Bin("+", Fld(This(), "sides"), Var(c)))), Ret(Bin("*", Var(c), I(100)))], override=True)],
+                    [Ctor([], [Super(), Expr(FAsg(This(), "sides", I(3)))])], [])
+        main = Func("main", [], VOID, [Decl(C("Shape"), "s", New("Tri")), Echo(MCall(Var("s"), "area", I(4), I(5))), Echo(MCall(Var("s"), "grow", I(26))), Echo(MCall(Var("s"), "twiceArea", I(2), I(3))),
+                                       Decl(C("Tri"), "t", New("Tri")), Echo(MCall(Var("t"), "area", I(6), I(7))), Echo(MCall(Var("t"), "grow", I(2))), Echo(Fld(Var("t"), "sides")),
+                                       Decl(C("Shape"), "p", New("Shape")), Echo(MCall(Var("p"), "area", I(8), I(9))), Echo(MCall(Var("p"), "grow", I(1)))])
+        out.append(Program([main], [shape, tri]))
     return out
 
 
